@@ -24,6 +24,7 @@ import EinoV.Gen.FactsC02
 import EinoV.Expected.C02
 import EinoV.Proofs.C02Workflow
 import EinoV.Expected.C02Workflow
+import EinoV.Proofs.TransDag
 
 namespace EinoV.C02
 open EinoV.Engine EinoV.Gen
@@ -705,5 +706,74 @@ theorem dag_stuck_run_has_nothing_enabled {V} (ops : ValOps V) (r : Runner V) (w
   refine ⟨fun n hen => ?_, run_end_never_waits ops r wf wf2 sched hf x [] [] older h⟩
   have := compTr_at r x _ (run_complete ops r wf wf2 sched hf x) [] [] older h n hen
   simpa [keysOfTr] using this
+
+/-! ### The source itself: compose/dag.go translated (Gen/TransC02.lean) refines the channel model
+
+`tools/factgen/gotrans.go` re-translates `dagChannel.{reportValues, reportDependencies, reportSkip,
+get}` (and `get`'s deferred reset) from /repo's working tree on every run.  The theorems below say
+that the translated text computes exactly what `Chan.reportValues / reportDeps / reportSkip / get`
+compute in all-predecessor mode — so every statement of this file about the channel model (and the
+run-level theorems built on it) is a statement about the code as it is now, not about a reading of
+it.  A changed statement in dag.go changes the generated definitions and these proofs are re-checked. -/
+section Translated
+open EinoV.GoSem EinoV.TransDag EinoV.Gen.TransC02
+variable {V : Type} [Inhabited V]
+
+theorem translated_source_is_current : FactsC02.dagChannelTranslated = true := by decide
+
+/-- `dagChannel.reportValues` -/
+theorem translated_reportValues_refines (ext : Ext V) (ch : dagChannel V) (ins : GoMap V) :
+    toChan (dagChannel_reportValues ext ch ins).1 = (toChan ch).reportValues true ins ∧
+    (dagChannel_reportValues ext ch ins).2 = none :=
+  reportValues_refines ext ch ins
+
+/-- `dagChannel.reportDependencies` -/
+theorem translated_reportDependencies_refines (ext : Ext V) (ch : dagChannel V) (deps : List String) :
+    toChan (dagChannel_reportDependencies ext ch deps) = (toChan ch).reportDeps true deps :=
+  reportDependencies_refines ext ch deps
+
+/-- `dagChannel.reportSkip` (new channel and the returned "all skipped") -/
+theorem translated_reportSkip_refines (ext : Ext V) (ch : dagChannel V) (keys : List String) :
+    (toChan (dagChannel_reportSkip ext ch keys).1, (dagChannel_reportSkip ext ch keys).2)
+      = (toChan ch).reportSkip true keys :=
+  reportSkip_refines ext ch keys
+
+/-- `dagChannel.get`, both modes of `isStream` (in stream mode the value handed out when nothing
+    arrived is the empty stream), for channels with one entry per predecessor (Go maps) -/
+theorem translated_get_refines (ops : ValOps V) (es : V) (ch : dagChannel V) (isStream : Bool) (h : WF ch) :
+    toChan (dagChannel_get (extOf ops es) ch isStream).1 = ((toChan ch).get (opsFor ops es isStream) true).1 ∧
+    getResult (dagChannel_get (extOf ops es) ch isStream).2 = ((toChan ch).get (opsFor ops es isStream) true).2 :=
+  get_refines ops es ch isStream h
+
+/-- the hypothesis `WF` is what `dagChannelBuilder` establishes and every translated operation keeps -/
+theorem translated_ops_keep_wf (ext : Ext V) (ch : dagChannel V) (h : WF ch) :
+    (∀ ins, WF (dagChannel_reportValues ext ch ins).1) ∧
+    (∀ deps, WF (dagChannel_reportDependencies ext ch deps)) ∧
+    (∀ keys, WF (dagChannel_reportSkip ext ch keys).1) ∧
+    (∀ cp dp : List Key, WF (ofChan (Chan.init (V := V) true cp dp))) :=
+  ⟨fun ins => reportValues_wf ext ch ins h, fun d => reportDependencies_wf ext ch d h,
+   fun k => reportSkip_wf ext ch k h, fun cp dp => init_wf cp dp⟩
+
+/-- the property clause, read off the translated `get`: the Go function reports ready (or a merge
+    error) exactly when the channel is `Triggered`, and leaves an untriggered channel untouched -/
+theorem translated_get_fires_iff_triggered (ops : ValOps V) (es : V) (ch : dagChannel V) (isStream : Bool)
+    (h : WF ch) :
+    (getResult (dagChannel_get (extOf ops es) ch isStream).2 ≠ .notReady ↔ Triggered (toChan ch)) ∧
+    (¬ Triggered (toChan ch) → (dagChannel_get (extOf ops es) ch isStream).1 = ch) := by
+  obtain ⟨h1, h2⟩ := get_refines ops es ch isStream h
+  obtain ⟨g1, g2⟩ := dag_fires_iff_triggered (opsFor ops es isStream) (toChan ch)
+  refine ⟨by rw [h2]; exact g1, fun hn => ?_⟩
+  have := g2 hn
+  rw [← h1] at this
+  have e := congrArg ofChan this
+  simpa [ofChan_toChan] using e
+
+def exChan : dagChannel Nat :=
+  { ControlPredecessors := [("a", Dep.ready), ("b", Dep.skipped)], Values := [("a", 1)],
+    DataPredecessors := [("a", true)], Skipped := false }
+example : WF exChan := by unfold WF KeysNodup exChan; decide
+example : (dagChannel_get (extOf natOps 0) exChan false).2 = (1, true, none) := by decide
+
+end Translated
 
 end EinoV.C02
